@@ -119,6 +119,8 @@ namespace options
 
     void option::prepare()
     {
+        value_ = nitro::lang::optional<std::string>();
+        dirty_ = false;
     }
 
     void option::check()
